@@ -78,10 +78,14 @@ Definition inv_path_parse (value : bytes) : option bytes :=
   | _ => if existsb (fun p => is_nil p || is_dot p || is_dotdot p) (split_slash t) then None else Some t
   end.
 
-(** validate/mod.rs:53-61: the content directory may not be "." or ".." and may not contain '/'
-    (the empty name IS accepted - known finding cdir-empty of C10) *)
+(** validate/mod.rs:52-61: the content directory may not be "." or ".." and may not contain '/' *)
 Definition validate_content_dir (d : bytes) : bool :=
   negb (is_dot d || is_dotdot d || existsb (fun c => Ascii.eqb c SLASH) d).
+(** create_object, repo.rs:578-591: in addition the name may not be blank, inventory.json or
+    inventory.json.* (the theorems about staged paths need [validate_content_dir] only) *)
+Definition create_content_dir_ok (d : bytes) : bool :=
+  validate_content_dir d
+  && negb (is_nil d || seg_eqb d K_INVENTORY_FILE || starts_with K_INVENTORY_SIDECAR_PREFIX d).
 
 (** [VersionNum::to_string] = "v" followed by decimal digits (zero padded), types.rs:393-399;
     Model/VersionNum.v proves this shape of [vdisplay]; here the string is an input *)
@@ -195,7 +199,9 @@ Record opd := mkOp {
   o_rel : bytes;                 (* storage-root relative root of the object in the main repository:
                                     existing object: its root; new object: [new_object_rel] *)
   o_exists : bool;               (* the object exists in the main repository *)
-  o_srcs : list fpath }.         (* mv (external): the named sources *)
+  o_srcs : list fpath;           (* mv (external): the named sources, lexically normalised (what the calls name) *)
+  o_csrcs : list fpath }.        (* mv (external): fs::canonicalize of the named sources that exist (symbolic
+                                    links and ".." resolved); equal to [o_srcs] when no symbolic link is involved *)
 
 Definition S_o (c : cfg) (o : opd) : fpath := staged_root (c_stg c) (o_hex o).
 Definition lockf (c : cfg) (o : opd) : fpath := lock_file (c_stg c) (o_hex o).
@@ -260,6 +266,17 @@ Definition takes_lock (k : opkind) : bool :=
   match k with KResetAll | KPurge | KInit | KUpgradeRepo => false | _ => true end.
 Definition uses_staging (k : opkind) : bool :=
   match k with KInit | KUpgradeRepo => false | _ => true end.
+
+(** mv (external) refuses, before doing anything, when a named source is part of the repository
+    (fix 128b230): repo.rs:721-730 asks [contains_local_path] (fs.rs:679-685: canonicalize(path)
+    starts_with canonicalize(root) or vice versa) of the main store and of the staging store.
+    [get_staging] may have to create the staging repository for that question. *)
+Definition src_in_repo (c : cfg) (s : fpath) : bool :=
+  under (c_root c) s || under s (c_root c) || under (c_stg c) s || under s (c_stg c).
+Definition mv_refused (c : cfg) (o : opd) : bool := existsb (src_in_repo c) (o_csrcs o).
+(** does the operation get past its up-front refusals? *)
+Definition op_runs (c : cfg) (o : opd) : bool :=
+  match o_kind o with KMvExt => negb (mv_refused c o) | _ => true end.
 
 (** mv (external): [fs::rename(source file, staged path)] (fs.rs:755-770) and
     [clean_dirs_down] of the named source directories (repo.rs:711-718, util.rs:25-36) *)
@@ -348,14 +365,15 @@ Definition upgrade_repo_ops (c : cfg) (f : fsop) : bool :=
 Definition allowed (c : cfg) (s : pre) (o : opd) (f : fsop) : bool :=
   let k := o_kind o in
   (uses_staging k && stage_infra c f)
-  || (takes_lock k && stage_lock c o f)
-  || (uses_staging k && stage_anc c o f)
-  || (body_ops k f && stage_body c o f && body_gate c s o)
-  || (match k with KMvExt => mv_sources c o f | _ => false end)
-  || (match k with KCommit | KUpgrade => commit_new c s o f || commit_version c s o f | _ => false end)
-  || (match k with KPurge => purge_main c s o f | _ => false end)
-  || (match k with KInit => init_ops c f | _ => false end)
-  || (match k with KUpgradeRepo => upgrade_repo_ops c f | _ => false end).
+  || (op_runs c o &&
+      ((takes_lock k && stage_lock c o f)
+       || (uses_staging k && stage_anc c o f)
+       || (body_ops k f && stage_body c o f && body_gate c s o)
+       || (match k with KMvExt => mv_sources c o f | _ => false end)
+       || (match k with KCommit | KUpgrade => commit_new c s o f || commit_version c s o f | _ => false end)
+       || (match k with KPurge => purge_main c s o f | _ => false end)
+       || (match k with KInit => init_ops c f | _ => false end)
+       || (match k with KUpgradeRepo => upgrade_repo_ops c f | _ => false end))).
 
 (** ** the zones of the two properties *)
 
@@ -491,7 +509,7 @@ Definition gen (c : cfg) (o : opd) (g : gin) : list (bool * fsop) :=
 (** input conditions of [gen] (what the callers of the modelled functions guarantee) *)
 Definition seg_ok (sg : fseg) : bool := seg_normal sg.
 Definition gin_ok (c : cfg) (s : pre) (o : opd) (g : gin) : bool :=
-  hex_ok (o_hex o) && is_vstr (o_head o)
+  hex_ok (o_hex o) && is_vstr (o_head o) && op_runs c o
   && is_sidecar (g_sidecar g)
   && match g_restage g with Some d => is_obj_decl d | None => true end
   && forallb rel_safe (g_create g) && forallb rel_safe (g_copy g) && forallb rel_safe (g_remove g)
